@@ -1,6 +1,7 @@
 """C03 — Files stay structurally valid through any edit history."""
 import containers
 import id3file_tie
+import dsf_tie
 import iff_tie
 import apefile_tie
 
@@ -15,6 +16,7 @@ RULE = ("random edit histories (set tiny/huge/empty/unicode values, save with de
 def run(ctx):
     containers.run_histories(ctx, {"wf", "info"}, RULE)
     id3file_tie.run(ctx)
+    dsf_tie.run(ctx)
     iff_tie.run(ctx)
     apefile_tie.run(ctx)
 
